@@ -4,7 +4,7 @@
 //! the decoders enforce, e.g. non-empty signature maps, coprime ratios, thresholds not exceeding
 //! the number of keys). An exhausted choice sequence (all zeros) yields the simplest value.
 #![allow(deprecated)]
-use crate::wire::{self, ascii, dec, small_len, utf8, G1, W};
+use crate::wire::{self, ascii, dec, long_utf8, small_len, utf8, G1, W};
 use concordium_base::{
     base::*,
     common::{
@@ -87,7 +87,7 @@ chain!(i64, eq, |u| gen::boundary_u64(u) as i64);
 chain!(bool, eq, |u| gen::boolean(u));
 chain!(String, eq, |u| if gen::ratio(u, 1, 40) {
     // crosses the 4096-byte chunking boundary of the String decoder
-    "x".repeat(gen::range_usize(u, 4090, 9000))
+    long_utf8(u, 4090, 9000, 'x')
 } else {
     utf8(u, 64)
 });
@@ -538,7 +538,7 @@ chain!(AccountAccessStructure, eq, |u| {
 
 chain!(ProtocolUpdate, eq, |u| {
     // message / url lengths on both sides of the decoder's 4096 switch
-    let long = |u: &mut U| if gen::ratio(u, 1, 12) { "m".repeat(gen::range_usize(u, 4090, 4200)) } else { utf8(u, 60) };
+    let long = |u: &mut U| if gen::ratio(u, 1, 12) { long_utf8(u, 4090, 4200, 'm') } else { utf8(u, 60) };
     ProtocolUpdate {
         message: long(u),
         specification_url: long(u),
@@ -754,7 +754,11 @@ fn attr_map(u: &mut U) -> BTreeMap<AttributeTag, AttributeKind> {
 }
 
 chain!(Pol, eq, |u| Policy { valid_to: g(u), created_at: g(u), policy_vec: attr_map(u), _phantom: Default::default() });
-chain!(Description, eq, |u| Description { name: utf8(u, 40), url: utf8(u, 40), description: utf8(u, 80) });
+chain!(Description, eq, |u| {
+    // the three strings are read by the chunked string reader (4096-byte chunks)
+    let f = |u: &mut U, max: usize| if gen::ratio(u, 1, 20) { long_utf8(u, 4090, 8300, 'd') } else { utf8(u, max) };
+    Description { name: f(u, 40), url: f(u, 40), description: f(u, 80) }
+});
 chain!(concordium_base::elgamal::Cipher<G1>, eq, |u| concordium_base::elgamal::Cipher(wire::g1(u), wire::g1(u)));
 chain!(concordium_base::elgamal::PublicKey<G1>, eq, |u| concordium_base::elgamal::PublicKey { generator: wire::g1(u), key: wire::g1(u) });
 chain!(concordium_base::pedersen_commitment::Commitment<G1>, eq, |u| concordium_base::pedersen_commitment::Commitment(wire::g1(u)));
